@@ -81,7 +81,7 @@ func menuFor(profile string) []opGen {
 	switch profile {
 	case "valset":
 		return []opGen{
-			{"delegate", 10, opDelegate}, {"undelegate", 8, opUndelegate}, {"redelegate", 4, opRedelegate},
+			{"delegate", 22, opDelegate}, {"undelegate", 16, opUndelegate}, {"redelegate", 6, opRedelegate},
 			{"unjail", 3, opUnjail}, {"create-validator", 2, opCreateValidator},
 			{"create-consumer", 3, opCreateConsumer}, {"update-consumer", 6, opUpdateConsumer}, {"remove-consumer", 1, opRemoveConsumer},
 			{"opt-in", 8, opOptIn}, {"opt-out", 6, opOptOut}, {"assign-key", 6, opAssignKey}, {"commission", 1, opCommission},
@@ -185,7 +185,7 @@ func (w *World) nextDeadline() (time.Time, bool) {
 func (w *World) setupLive() {
 	owner := w.Accts["owner0"]
 	for i := 0; i < w.Cfg.LiveConsumers; i++ {
-		spawn := w.Now.Add(time.Duration(20+10*i) * time.Second)
+		spawn := w.Now.Add(time.Duration(60+10*i) * time.Second)
 		var ps *providertypes.PowerShapingParameters
 		if i > 0 {
 			ps = w.randPowerShaping()
@@ -200,6 +200,19 @@ func (w *World) setupLive() {
 		}
 	}
 	var specs []TxSpec
+	// the second live consumer becomes a Top-N consumer: ownership to governance, then a proposal
+	if len(w.Shadow.Consumers) >= 2 && w.Cfg.Profile != "rewards" {
+		ci := w.Shadow.Consumers[1]
+		w.Tick()
+		w.ProviderStep([]TxSpec{{Signer: owner, Msgs: []sdk.Msg{&providertypes.MsgUpdateConsumer{Owner: owner.Addr.String(), ConsumerId: ci.ID, NewOwnerAddress: GovAddr()}}, Tag: "update-consumer:owner->gov"}}, true, nil)
+		ps, _ := w.P.PApp.ProviderKeeper.GetConsumerPowerShapingParameters(w.P.Ctx(), ci.ID)
+		ps.Top_N = topNMenu[w.Rnd.Intn(len(topNMenu))]
+		w.propsThisStep = 0
+		op := w.withVotes(one("gov-topn", w.Accts["faucet"], GovProposal(w.Accts["faucet"], &providertypes.MsgUpdateConsumer{Owner: GovAddr(), ConsumerId: ci.ID, PowerShapingParameters: &ps})))
+		w.Tick()
+		w.ProviderStep(op.Specs, false, nil)
+		w.syncShadow()
+	}
 	for _, ci := range w.Shadow.Consumers {
 		for _, v := range w.createdVals() {
 			if w.Rnd.Intn(5) == 0 && v.Idx != 0 {
@@ -239,17 +252,15 @@ func (w *World) MainLoop() {
 			break
 		}
 		dt, long := w.pickDt()
-		if w.hasUnvotedProps() {
-			dt, long = 5*time.Second, false
-		}
 		if long {
 			w.Op("time +%s (long)", dt)
-			w.LongAdvance(dt, w.Rnd.Intn(10) != 0)
+			w.LongAdvance(dt, !(w.Step > w.Cfg.Steps*2/3 && w.Rnd.Intn(12) == 0))
 		} else {
 			w.AdvanceTime(dt)
 		}
 		var specs []TxSpec
 		solo := false
+		w.propsThisStep = 0
 		nops := w.Rnd.Intn(4)
 		for i := 0; i < nops; i++ {
 			op := w.pickOp()
@@ -266,7 +277,6 @@ func (w *World) MainLoop() {
 			specs = append(specs, op.Specs...)
 		}
 		if !solo {
-			specs = append(specs, w.voteOps()...)
 			if w.stepExtra != nil {
 				specs = append(specs, w.stepExtra()...)
 			}
@@ -274,12 +284,13 @@ func (w *World) MainLoop() {
 		w.ProviderStep(specs, solo, w.providerOpts())
 		w.syncShadow()
 		w.ConsumersStep()
+		w.maybeKeepAlive()
 	}
 	// drain: a few quiet rounds so that in-flight traffic settles and end-of-run checks see a steady state
 	for i := 0; i < 6 && !w.P.Halted; i++ {
 		w.Step++
 		w.Tick()
-		w.ProviderStep(w.voteOps(), false, nil)
+		w.ProviderStep(nil, false, nil)
 		w.ConsumersStep()
 	}
 }
